@@ -65,6 +65,12 @@ def rules_of(fx, rep, pid, rules, rule_id, why, tier='quick'):
 # ---- layering: a property whose behaviour passes through another layer of the library depends on that layer's structural clauses.
 # (importing property) -> [(exporting property, rules (set or id prefix), rule id here, why the dependence is real)]
 LAYERS = {
+    'C03': [('C19', {'R19.2'}, 'E9', 'the bytes of a frame reach the peer through WriteHalf::write: a transport that hands a prefix to the kernel twice emits other bytes than the encoding')],
+    'C14': [('C03', {'E1', 'E2', 'E2b', 'E6', 'E7'}, 'R14.12', 'GetInterfaceDescription carries the rendered text as a JSON string through the built-in serializer: an escaping or '
+             'streaming defect there changes the text the client parses')],
+    'C15': [('C03', {'E1', 'E2', 'E2b', 'E3', 'E4', 'E5'}, 'R15.6', 'the values generated code sends are encoded by the built-in serializer: declared strings / numbers / keys must arrive as such')],
+    'C17': [('C03', {'E6'}, 'R17.6', 'the only signal that makes the write buffer grow is BufferTooSmall from the slice writer: raised early (an over-estimate) it grows the buffer '
+             'past what the message needs and refuses messages below the limit')],
     'C05': [('C04', 'R04.', 'R05.8', 'a reply is decoded only through the classification in receive_reply: a second decode path, or a changed attempt order, makes legal '
              'success / error replies undecodable or misread, whatever the member order')],
     'C08': [('C01', 'R01.', 'R08.9', 'a call the server cannot frame exactly is answered zero or two times, or the next call is answered with its reply'),
@@ -77,7 +83,8 @@ LAYERS = {
     'C10': [('C01', 'R01.', 'R10.6', 'calls pipelined behind a streaming call are in the receive buffer: they are served in order only if framing is exact'),
             ('C02', 'R02.', 'R10.7', 'every stream item is one framed reply that is flushed when sent: an item left in the write buffer is not delivered while the stream is open'),
             ('C18', {'R18.2'}, 'R10.8', 'two streams ready in the same poll: the select must hand out one item and keep the other future pending, not drop its output')],
-    'C12': [('C04', 'R04.', 'R12.10', 'generated methods map replies "exactly as the low-level receive classifies them"'),
+    'C12': [('C02', 'R02.', 'R12.12', 'every generated method hands its call to enqueue / send_call: one document, one NUL, also for the second call of a chain'),
+            ('C04', 'R04.', 'R12.10', 'generated methods map replies "exactly as the low-level receive classifies them"'),
             ('C06', {'R06.1', 'R06.2', 'R06.3', 'R06.4', 'R06.5'}, 'R12.11', 'chain forms and streaming methods are built on Chain / ReplyStream: one item per owed reply up to the final one')],
     'C18': [('C01', {'R01.2', 'R01.3', 'R01.4', 'R01.6', 'R01.7'}, 'R18.6', 'fairness presupposes that a complete call in the socket is recognised as complete by the receive path: '
              'a read loop that keeps reading (or stops early) leaves a waiting client unserved while others are'),
